@@ -30,8 +30,8 @@ PID = "C45"
 LEVEL = "proof"
 LEAN = ["SaVerif.Props.C45"]
 META = {
-    "text": "Lean theorems over the merge model for ALL session states and ALL sources (any partial loading): every attribute loaded on the source is equal on the merged instance and every attribute not loaded keeps its value (merge_copies_loaded); merging an equal source again leaves the whole session state unchanged and emits no SQL (merge_idempotent; hypothesis: the first merge did not create a still-pending instance, for which the second merge is skipped by the harness - documented behaviour with autoflush off); with load=False no SQL is emitted, the database is untouched and the result carries no net change (merge_noload_no_sql_no_change), and transient / dirty-and-absent sources are rejected (merge_noload_rejects). Tied to orm/session.py, properties.py by a differential run (values, net-change flag, SQL statement count per merge); identity of the returned instance, idempotence, graph cascades and flushed rows are re-checked on the real objects by an independent oracle.",
-    "note": "Trusted: Lean kernel; correspondence; SQLite. In the model the identity map is a function of the primary key, so 'the single instance' is by construction there: object identity (`is`) is established only by the oracle on the real objects. Relationship cascade of merge is covered by the oracle stream only (not modelled in Lean). autoflush is off; sources always carry a full primary key.",
+    "text": "Lean theorems over the merge model for ALL session states and ALL sources (any partial loading): every attribute loaded on the source is equal on the merged instance and every attribute not loaded keeps its value (merge_copies_loaded); merging an equal source again leaves the whole session state unchanged and emits no SQL (merge_idempotent; hypothesis: the first merge did not create a still-pending instance, for which the second merge is skipped by the harness - documented behaviour with autoflush off); with load=False no SQL is emitted, the database is untouched and the result carries no net change (merge_noload_no_sql_no_change), and transient / dirty-and-absent sources are rejected (merge_noload_rejects); the returned instance carries the source's full identity key, identity token included (merge_keeps_identity). Tied to orm/session.py, properties.py by a differential run (values, net-change flag, SQL statement count per merge); identity of the returned instance, idempotence, graph cascades and flushed rows are re-checked on the real objects by an independent oracle.",
+    "note": "Trusted: Lean kernel; correspondence; SQLite. In the model the identity map is a function of the primary key, so 'the single instance' is by construction there: object identity (`is`) is established only by the oracle on the real objects. Relationship cascade of merge is covered by the oracle stream only (not modelled in Lean). autoflush is off; sources always carry a full primary key. Fixture classes define __len__/__bool__ (falsy instances) and value __eq__/__hash__ (equal-but-distinct instances). merge(load=False) of a source whose key has an identity token is excluded: the new instance gets the key but not state.identity_token and is re-keyed to the token-less identity at the next flush (observed defect, reported).",
     "technique": "Lean 4 proofs over a merge model + differential correspondence incl. SQL statement counts + direct oracle on real object graphs",
     "design_ref": "DESIGN.md §3 C45",
 }
@@ -61,25 +61,64 @@ class World:
         self.engine = sa.create_engine("sqlite:///" + os.path.join(_tmpdir(), "c45.db"))
         Base = declarative_base()
 
-        class T(Base):
+        class Odd:
+            """what applications do to their mapped classes: container protocol and value equality.
+            Instances are falsy, and distinct instances with equal values compare (and hash) equal;
+            the ORM must go by identity (`is`, `is not None`) throughout."""
+
+            def __len__(self):
+                return 0
+
+            def __bool__(self):
+                return False
+
+            def __eq__(self, other):
+                return type(other) is type(self) and self._value() == other._value()
+
+            def __ne__(self, other):
+                return not self.__eq__(other)
+
+            def __hash__(self):
+                return 7
+
+        class T(Odd, Base):
             __tablename__ = "t"
             id = sa.Column(sa.Integer, primary_key=True, autoincrement=False)
             a = sa.Column(sa.Integer)
             b = sa.Column(sa.Integer)
 
+            def _value(self):
+                return (self.__dict__.get("id"), self.__dict__.get("a"), self.__dict__.get("b"))
+
+        class K(Odd, Base):  # a "cart": scalar side of a many-to-one
+            __tablename__ = "k"
+            id = sa.Column(sa.Integer, primary_key=True, autoincrement=False)
+            v = sa.Column(sa.Integer)
+
+            def _value(self):
+                return (self.__dict__.get("id"), self.__dict__.get("v"))
+
         class P(Base):
             __tablename__ = "p"
             id = sa.Column(sa.Integer, primary_key=True, autoincrement=False)
             a = sa.Column(sa.Integer)
+            kid = sa.Column(sa.Integer, sa.ForeignKey("k.id"))
             children = relationship("C", order_by="C.id", backref="parent")
+            cart = relationship("K")
 
-        class C(Base):
+        class C(Odd, Base):
             __tablename__ = "c"
             id = sa.Column(sa.Integer, primary_key=True, autoincrement=False)
             pid = sa.Column(sa.Integer, sa.ForeignKey("p.id"))
             c = sa.Column(sa.Integer)
 
-        self.T, self.P, self.C = T, P, C
+            def _value(self):
+                # value equality per row: a source object and the Session's instance for the same
+                # row are equal but distinct (two different rows never compare equal: Python's
+                # list.remove() is by equality, which is the collection's documented semantics)
+                return (self.__dict__.get("id"), self.__dict__.get("c"))
+
+        self.T, self.P, self.C, self.K = T, P, C, K
         Base.metadata.drop_all(self.engine)
         Base.metadata.create_all(self.engine)
         self.nsql = 0
@@ -90,7 +129,7 @@ class World:
 
     def reset(self):
         with self.engine.begin() as c:
-            for t in ("c", "p", "t"):
+            for t in ("c", "p", "k", "t"):
                 c.exec_driver_sql("delete from " + t)
 
 
@@ -115,6 +154,9 @@ def guarded(fn):
     return wrapper
 
 
+TOK = [None, "t1", "t2"]
+
+
 def nz(v):
     """NULL is printed as 0 on both sides (the model has no NULL)"""
     return 0 if v is None else v
@@ -124,9 +166,13 @@ def make_source(T, spec, **extra):
     """spec: dict attr -> value for the loaded attributes; persistent / modified flags"""
     from sqlalchemy.orm import make_transient_to_detached
 
+    from sqlalchemy import inspect
+
     kw = {k: v for k, v in spec["attrs"].items() if v is not None}
     o = T(id=spec["pk"], **kw)
     if spec["persistent"]:
+        # the key of a detached object carries the identity token it was loaded with
+        inspect(o).identity_token = TOK[spec.get("tok", 0)]
         make_transient_to_detached(o)
         if spec.get("modified"):
             # re-assign a loaded attribute: same value, but the state is now dirty
@@ -152,12 +198,16 @@ def run_flat(case):
     keep = []
     noload_pks = set()  # load=False asserts the source IS the database state: not comparable afterwards
     outs, problems = [], []
+    final_flush = 1
 
-    def ident(k):
-        return sess.identity_map.get(inspect(T).identity_key_from_primary_key((k,)))
+    def ident(k, t=0):
+        return sess.identity_map.get(inspect(T).identity_key_from_primary_key((k,), identity_token=TOK[t]))
+
+    def any_ident(k):
+        return any(ident(k, t) is not None for t in range(3))
 
     def pending(k):
-        return [o for o in sess.new if isinstance(o, T) and o.id == k]
+        return [o for o in sess.new if isinstance(o, T) and o.__dict__.get("id") == k]
 
     def dbrows():
         with w.engine.connect() as c:
@@ -167,10 +217,22 @@ def run_flat(case):
         snap = {}
         for o in list(sess.identity_map.values()) + list(sess.new):
             st = inspect(o)
-            snap[(o.id, st.pending)] = (id(o), o.__dict__.get("a", "N"), o.__dict__.get("b", "N"), sess.is_modified(o),
-                                        tuple(sorted(st.committed_state)))
+            snap[(o.__dict__.get("id"), st.identity_token, st.pending)] = (
+                id(o), o.__dict__.get("a", "N"), o.__dict__.get("b", "N"), sess.is_modified(o), tuple(sorted(st.committed_state)))
         return snap
 
+    def flush_conflict():
+        """two modified instances of one row (or a pending one beside a modified one): their
+        UPDATE order is unspecified, the history ends before such a flush"""
+        per = {}
+        for o in sess.identity_map.values():
+            if sess.is_modified(o):
+                per[o.__dict__.get("id", inspect(o).key[1][0])] = per.get(o.__dict__.get("id", inspect(o).key[1][0]), 0) + 1
+        for o in sess.new:
+            per[o.__dict__.get("id")] = per.get(o.__dict__.get("id"), 0) + 1
+        return any(v > 1 for v in per.values())
+
+    final = {}
     try:
         with warnings.catch_warnings():
             warnings.simplefilter("ignore")
@@ -178,33 +240,36 @@ def run_flat(case):
                 kind = op[0]
                 if kind == "ins":
                     k = op[1]
-                    if ident(k) is None and not pending(k) and k not in dbrows():
+                    if not any_ident(k) and not pending(k) and k not in dbrows():
                         with w.engine.begin() as c:
                             c.exec_driver_sql("insert into t (id, a, b) values (?, ?, ?)", (k, op[2], op[3]))
                     outs.append(".")
                 elif kind == "load":
-                    k = op[1]
-                    if not pending(k) and ident(k) is None:
-                        o = sess.get(T, k)
+                    k, t = op[1], op[2]
+                    if not pending(k) and ident(k, t) is None:
+                        o = sess.get(T, k, identity_token=TOK[t])
                         if o is not None:
                             keep.append(o)
                     outs.append(".")
                 elif kind == "set":
-                    o = ident(op[1])
+                    o = ident(op[1], op[2])
                     if o is not None:
-                        setattr(o, "b" if op[2] else "a", op[3])
+                        setattr(o, "b" if op[3] else "a", op[4])
                     outs.append(".")
                 elif kind == "flush":
+                    if flush_conflict():
+                        final_flush = 0
+                        break
                     sess.flush()
                     sess.commit()
                     outs.append(".")
                 elif kind == "m":
                     load, spec = op[1], op[2]
-                    k = spec["pk"]
+                    k, t = spec["pk"], spec.get("tok", 0)
                     if pending(k):
                         outs.append(".")
                         continue
-                    before_obj = ident(k)
+                    before_obj = ident(k, t)
                     before_vals = None if before_obj is None else {x: before_obj.__dict__.get(x, "N") for x in ("a", "b")}
                     row = dbrows().get(k)
                     src = make_source(T, spec)
@@ -221,16 +286,20 @@ def run_flat(case):
                     st = inspect(m)
                     isnew = st.pending if load else (before_obj is None)
                     dirty = True if st.pending else sess.is_modified(m)
-                    outs.append("M%d:%s:%s:%d:%d" % (1 if isnew else 0, nz(m.__dict__.get("a", "N")), nz(m.__dict__.get("b", "N")), 1 if dirty else 0, q))
+                    mtok = 0 if st.pending else TOK.index(st.key[2])
+                    outs.append("M%d:%d:%s:%s:%d:%d" % (1 if isnew else 0, mtok, nz(m.__dict__.get("a", "N")), nz(m.__dict__.get("b", "N")), 1 if dirty else 0, q))
                     # ------------------------------------------------ oracle
-                    holder = ident(k)
                     if st.pending:
                         if not any(p is m for p in pending(k)):
                             problems.append(("merged-instance-not-in-session", "pk %d" % k))
-                    elif holder is not m:
-                        problems.append(("merge-returned-other-instance", "pk %d: merge returned an object that is not the identity map's" % k))
+                    else:
+                        if spec["persistent"] and st.key != inspect(src).key:
+                            problems.append(("merge-returned-instance-of-another-identity",
+                                             "source key %s, merge returned the instance with key %s" % (inspect(src).key[1:], st.key[1:])))
+                        if sess.identity_map.get(st.key) is not m:
+                            problems.append(("merge-returned-other-instance", "pk %d: merge returned an object that is not the identity map's" % k))
                     if before_obj is not None and m is not before_obj:
-                        problems.append(("merge-replaced-existing-instance", "pk %d" % k))
+                        problems.append(("merge-replaced-existing-instance", "pk %d token %s" % (k, TOK[t])))
                     if m is src:
                         problems.append(("merge-returned-source", "pk %d" % k))
                     for x in ("a", "b"):
@@ -273,21 +342,28 @@ def run_flat(case):
                                 problems.append(("second-merge-emitted-sql", "%d statements" % (w.nsql - q1)))
                 else:
                     raise ValueError(op)
-            sess.flush()
-            sess.commit()
+            if final_flush and flush_conflict():
+                final_flush = 0
+            if final_flush:
+                sess.flush()
+                sess.commit()
             final = dbrows()
-            # after the final flush every session object equals its row
-            for o in list(sess.identity_map.values()):
-                if isinstance(o, T) and o.id not in noload_pks and o.id in final and (nz(o.__dict__.get("a")), nz(o.__dict__.get("b"))) != tuple(nz(x) for x in final[o.id]):
-                    if "a" in o.__dict__ and "b" in o.__dict__:
-                        problems.append(("flushed-row-differs-from-merged-state", "pk %d: object %s row %s" % (o.id, (o.a, o.b), final.get(o.id))))
+            if final_flush:
+                # after the final flush every session object equals its row
+                for o in list(sess.identity_map.values()):
+                    oid = inspect(o).key[1][0]
+                    if isinstance(o, T) and oid not in noload_pks and oid in final and "a" in o.__dict__ and "b" in o.__dict__:
+                        if (nz(o.__dict__.get("a")), nz(o.__dict__.get("b"))) != tuple(nz(x) for x in final[oid]):
+                            # several instances of one row (different tokens): only the one flushed last matches
+                            if sum(1 for t in range(3) if ident(oid, t) is not None) == 1:
+                                problems.append(("flushed-row-differs-from-merged-state", "pk %d: object %s row %s" % (oid, (o.a, o.b), final.get(oid))))
     finally:
         try:
             sess.close()
         except Exception:
             pass
     line = ";".join(outs) + " | " + " ".join("%d=%s/%s" % (k, nz(final[k][0]), nz(final[k][1])) for k in sorted(final) if k < n)
-    return line, problems
+    return line, problems, len(outs), final_flush
 
 
 @guarded
@@ -298,15 +374,18 @@ def run_graph(case):
 
     w = world()
     w.reset()
-    P, C = w.P, w.C
+    P, C, K = w.P, w.C, w.K
     problems = []
     with w.engine.begin() as c:
+        for kid, v in case.get("dbk", {}).items():
+            c.exec_driver_sql("insert into k (id, v) values (?, ?)", (kid, v))
         for pid, a in case["dbp"].items():
-            c.exec_driver_sql("insert into p (id, a) values (?, ?)", (pid, a))
+            c.exec_driver_sql("insert into p (id, a, kid) values (?, ?, ?)", (pid, a, case.get("dbpk", {}).get(pid)))
         for cid, (pp, cv) in case["dbc"].items():
             c.exec_driver_sql("insert into c (id, pid, c) values (?, ?, ?)", (cid, pp, cv))
     sess = Session(w.engine, autoflush=False, expire_on_commit=False)
     keep = []
+    kw_cart_holder = {}
     try:
         with warnings.catch_warnings():
             warnings.simplefilter("ignore")
@@ -328,14 +407,50 @@ def run_graph(case):
                     kw = {"a": g["a"]} if g["a"] is not None else {}
                     if kids is not None:
                         kw["children"] = kids
+                    cart = g.get("cart")
+                    if cart == "null":
+                        kw["cart"] = None
+                    elif cart is not None:
+                        ko = K(id=cart["pk"], **({"v": cart["v"]} if cart["v"] is not None else {}))
+                        if cart["persistent"]:
+                            make_transient_to_detached(ko)
+                        kw["cart"] = ko
                     po = P(id=g["pk"], **kw)
                     if g["persistent"]:
                         make_transient_to_detached(po)
+                    if not g.get("load", 1):
+                        # as if loaded by another session: linking the graph must not leave history
+                        for x in [po] + (kids or []) + ([kw["cart"]] if kw.get("cart") is not None else []):
+                            inspect(x)._commit_all(x.__dict__)
+                    kw_cart_holder["src"] = kw.get("cart")
                     return po
 
                 before = sess.identity_map.get(inspect(P).identity_key_from_primary_key((g["pk"],)))
-                m = sess.merge(build())
+                load = bool(g.get("load", 1))
+                q0 = w.nsql
+                m = sess.merge(build(), load=load)
                 keep.append(m)
+                if not load and w.nsql != q0:
+                    problems.append(("merge-noload-emitted-sql", "%d statements" % (w.nsql - q0)))
+                cart = g.get("cart")
+                if cart == "null":
+                    if m.cart is not None:
+                        problems.append(("merge-scalar-relationship-differs", "parent %d: source cart None, merged has one" % g["pk"]))
+                elif cart is not None:
+                    mc = m.__dict__.get("cart")
+                    if mc is None:
+                        problems.append(("merge-dropped-related-object", "parent %d: source has cart %d (a falsy instance), merged.cart is None" % (g["pk"], cart["pk"])))
+                    else:
+                        keep.append(mc)
+                        if inspect(mc).identity_key[1][0] != cart["pk"] if inspect(mc).key else mc.id != cart["pk"]:
+                            problems.append(("merge-scalar-relationship-differs", "parent %d: cart %s" % (g["pk"], mc.id)))
+                        if cart["v"] is not None and mc.v != cart["v"]:
+                            problems.append(("merge-did-not-copy-loaded-attribute", "cart %d v" % cart["pk"]))
+                        if mc is kw_cart_holder.get("src"):
+                            problems.append(("merge-returned-source", "cart %d" % cart["pk"]))
+                        held = sess.identity_map.get(inspect(K).identity_key_from_primary_key((cart["pk"],)))
+                        if held is not None and held is not mc:
+                            problems.append(("two-instances-one-identity", "cart %d" % cart["pk"]))
                 if before is not None and m is not before:
                     problems.append(("merge-replaced-existing-instance", "parent %d" % g["pk"]))
                 if g["a"] is not None and m.a != g["a"]:
@@ -359,22 +474,35 @@ def run_graph(case):
                             problems.append(("two-instances-one-identity", "child %d" % c.id))
                 # idempotence (when nothing of the graph is still pending)
                 allobjs = [m] + (list(m.children) if g["kids"] is not None else [])
+                if m.__dict__.get("cart") is not None:
+                    allobjs.append(m.__dict__["cart"])
                 if not any(inspect(o).pending for o in allobjs):
-                    snap = sorted((type(o).__name__, o.id, id(o), tuple(sorted((k, v) for k, v in o.__dict__.items() if k in ("a", "c", "pid"))),
+                    snap = sorted((type(o).__name__, o.id, id(o), tuple(sorted((k, v) for k, v in o.__dict__.items() if k in ("a", "c", "pid", "v", "kid"))),
                                    sess.is_modified(o)) for o in list(sess.identity_map.values()) + list(sess.new))
                     kidsnap = [id(c) for c in m.children] if g["kids"] is not None else None
-                    m2 = sess.merge(build())
+                    m2 = sess.merge(build(), load=load)
                     if m2 is not m:
                         problems.append(("second-merge-other-instance", "parent %d" % g["pk"]))
-                    snap2 = sorted((type(o).__name__, o.id, id(o), tuple(sorted((k, v) for k, v in o.__dict__.items() if k in ("a", "c", "pid"))),
+                    snap2 = sorted((type(o).__name__, o.id, id(o), tuple(sorted((k, v) for k, v in o.__dict__.items() if k in ("a", "c", "pid", "v", "kid"))),
                                     sess.is_modified(o)) for o in list(sess.identity_map.values()) + list(sess.new))
                     if snap2 != snap or (kidsnap is not None and [id(c) for c in m2.children] != kidsnap):
                         problems.append(("merge-not-idempotent", "parent %d" % g["pk"]))
                 sess.flush()
                 sess.commit()
+                if not load:
+                    continue  # load=False asserts the source IS the database state
                 with w.engine.connect() as c:
                     rows = {r[0]: (r[1], r[2]) for r in c.exec_driver_sql("select id, pid, c from c")}
                     prow = {r[0]: r[1] for r in c.exec_driver_sql("select id, a from p")}
+                    pk_kid = {r[0]: r[1] for r in c.exec_driver_sql("select id, kid from p")}
+                    krow = {r[0]: r[1] for r in c.exec_driver_sql("select id, v from k")}
+                if cart == "null" and pk_kid.get(g["pk"]) is not None:
+                    problems.append(("flushed-row-differs-from-merged-state", "parent %d kid %s, merged cart None" % (g["pk"], pk_kid.get(g["pk"]))))
+                if isinstance(cart, dict):
+                    if pk_kid.get(g["pk"]) != cart["pk"]:
+                        problems.append(("flushed-row-differs-from-merged-state", "parent %d kid %s, source cart %d" % (g["pk"], pk_kid.get(g["pk"]), cart["pk"])))
+                    if cart["pk"] not in krow or (cart["v"] is not None and krow[cart["pk"]] != cart["v"]):
+                        problems.append(("flushed-row-differs-from-merged-state", "cart %d row %s" % (cart["pk"], krow.get(cart["pk"]))))
                 if g["pk"] not in prow or (g["a"] is not None and prow[g["pk"]] != g["a"]):
                     problems.append(("flushed-row-differs-from-merged-state", "parent %d row %s" % (g["pk"], prow.get(g["pk"]))))
                 if g["kids"] is not None:
@@ -398,19 +526,20 @@ def enc_op(op):
     if op[0] == "m":
         s = op[2]
         f = lambda v: "N" if v is None else str(v)
-        return "m:%d:%d:%s:%s:%d:%d" % (op[1], s["pk"], f(s["attrs"].get("a")), f(s["attrs"].get("b")), 1 if s["persistent"] else 0, 1 if s.get("modified") else 0)
+        return "m:%d:%d:%d:%s:%s:%d:%d" % (op[1], s["pk"], s.get("tok", 0), f(s["attrs"].get("a")), f(s["attrs"].get("b")), 1 if s["persistent"] else 0, 1 if s.get("modified") else 0)
     return ":".join(str(int(x)) if isinstance(x, bool) else str(x) for x in op)
 
 
-def request(case):
-    return "merge run %d %s" % (case["n"], ",".join(enc_op(o) for o in case["ops"]) or "-")
+def request(case, nexec=None, final_flush=1):
+    ops = case["ops"] if nexec is None else case["ops"][:nexec]
+    return "merge run %d %d %s" % (case["n"], final_flush, ",".join(enc_op(o) for o in ops) or "-")
 
 
 # ---------------------------------------------------------------------- generators
 def rand_src(rng, n):
     pk = rng.randrange(n)
     pers = rng.random() < 0.6
-    return {"pk": pk, "attrs": {"a": rng.choice([None, rng.randint(0, 9)]), "b": rng.choice([None, rng.randint(0, 9)])},
+    return {"pk": pk, "tok": (rng.choice([0, 0, 1, 2]) if pers else 0), "attrs": {"a": rng.choice([None, rng.randint(1, 9)]), "b": rng.choice([None, rng.randint(1, 9)])},  # never 0: NULL prints as 0
             "persistent": pers, "modified": pers and rng.random() < 0.25}
 
 
@@ -419,16 +548,16 @@ def gen_flat(rng, tier):
     ops = []
     for k in range(n):
         if rng.random() < 0.6:
-            ops.append(("ins", k, rng.randint(0, 9), rng.randint(0, 9)))
+            ops.append(("ins", k, rng.randint(1, 9), rng.randint(1, 9)))
     for _ in range(rng.randint(3, 9 if tier == "quick" else 16)):
         r = rng.random()
         k = rng.randrange(n)
         if r < 0.12:
-            ops.append(("load", k))
+            ops.append(("load", k, rng.choice([0, 0, 1, 2])))
         elif r < 0.24:
-            ops.append(("set", k, rng.random() < 0.5, rng.randint(10, 19)))
+            ops.append(("set", k, rng.choice([0, 0, 1, 2]), rng.random() < 0.5, rng.randint(10, 19)))
         elif r < 0.30:
-            ops.append(("ins", k, rng.randint(0, 9), rng.randint(0, 9)))
+            ops.append(("ins", k, rng.randint(1, 9), rng.randint(1, 9)))
         elif r < 0.40:
             ops.append(("flush",))
         else:
@@ -436,29 +565,56 @@ def gen_flat(rng, tier):
             # load=False only for identities whose row was inserted before: an instance merged
             # without a row and modified later cannot be flushed (StaleDataError), not our subject
             has_row = any(o[0] == "ins" and o[1] == src["pk"] for o in ops)
-            ops.append(("m", 1 if (rng.random() < 0.65 or not has_row) else 0, src))
+            load = 1 if (rng.random() < 0.65 or not has_row) else 0
+            if not load:
+                # observed, not modelled: merge(load=False) gives the new instance the source's key but
+                # leaves state.identity_token unset, so the next flush re-keys it to the token-less
+                # identity; load=False is exercised with token-less sources only
+                src["tok"] = 0
+            ops.append(("m", load, src))
     return n, ops
 
 
 def gen_graph(rng):
-    npar, nch = rng.choice([1, 2]), rng.choice([2, 3, 4])
+    npar, nch, nk = rng.choice([1, 2]), rng.choice([2, 3, 4]), 2
+    dbk = {k: rng.randint(0, 9) for k in range(nk) if rng.random() < 0.7}
     dbp = {p: rng.randint(0, 9) for p in range(npar) if rng.random() < 0.7}
+    dbpk = {p: rng.choice(list(dbk) + [None]) if dbk else None for p in dbp}
     dbc = {c: (rng.choice(list(dbp) + [None]) if dbp else None, rng.randint(0, 9)) for c in range(nch) if rng.random() < 0.6}
     graphs = []
     ngraphs = rng.randint(1, 3)
     for gi in range(ngraphs):
         pk = rng.randrange(npar)
         kids = None
-        if rng.random() < 0.8:
+        if rng.random() < 0.7:
             ids = [c for c in range(nch) if rng.random() < 0.6]
             # two source objects with one identity (exercises _resolve_conflict_map); only in the
             # last graph: a collection listing one instance twice does not survive later
             # re-parenting through the backref consistently, which is not merge's business
             if ids and gi == ngraphs - 1 and rng.random() < 0.3:
                 ids.append(ids[0])
-            kids = [{"pk": c, "c": rng.choice([None, rng.randint(0, 9)]), "persistent": (c in dbc) and rng.random() < 0.8} for c in ids]
-        graphs.append({"pk": pk, "a": rng.choice([None, rng.randint(0, 9)]), "persistent": pk in dbp and rng.random() < 0.7, "kids": kids})
-    return {"dbp": dbp, "dbc": dbc, "preload": [p for p in range(npar) if rng.random() < 0.5], "graphs": graphs, "src": "graph"}
+            kids = [{"pk": c, "c": rng.choice([None, rng.randint(0, 3)]), "persistent": (c in dbc) and rng.random() < 0.8} for c in ids]
+        r = rng.random()
+        if r < 0.3:
+            cart = None
+        elif r < 0.4:
+            cart = "null"
+        else:
+            ck = rng.randrange(nk)
+            cart = {"pk": ck, "v": rng.choice([None, rng.randint(0, 9)]), "persistent": ck in dbk and rng.random() < 0.8}
+        g = {"pk": pk, "a": rng.choice([None, rng.randint(0, 9)]), "persistent": pk in dbp and rng.random() < 0.7, "kids": kids, "cart": cart, "load": 1}
+        # load=False: the source graph is taken to BE the database state, so it has to be: only as
+        # the first graph, built from the rows as they are (attributes partially loaded)
+        if gi == 0 and pk in dbp and rng.random() < 0.35:
+            mine = sorted(c for c in dbc if dbc[c][0] == pk)
+            g["persistent"] = True
+            g["a"] = rng.choice([None, dbp[pk]])
+            g["kids"] = rng.choice([None, [{"pk": c, "c": rng.choice([None, dbc[c][1]]), "persistent": True} for c in mine]])
+            ck = dbpk.get(pk)
+            g["cart"] = rng.choice([None, "null" if ck is None else {"pk": ck, "v": rng.choice([None, dbk[ck]]), "persistent": True}])
+            g["load"] = 0
+        graphs.append(g)
+    return {"dbk": dbk, "dbp": dbp, "dbpk": dbpk, "dbc": dbc, "preload": [p for p in range(npar) if rng.random() < 0.5], "graphs": graphs, "src": "graph"}
 
 
 def small_scope():
@@ -468,14 +624,17 @@ def small_scope():
     for a in (None, 5):
         for b in (None, 6):
             for pers in (True, False):
-                srcs.append({"pk": 0, "attrs": {"a": a, "b": b}, "persistent": pers, "modified": False})
-    srcs.append({"pk": 0, "attrs": {"a": 5, "b": None}, "persistent": True, "modified": True})
-    for pre in ([], [("ins", 0, 1, 2)], [("ins", 0, 1, 2), ("load", 0)], [("ins", 0, 1, 2), ("load", 0), ("set", 0, False, 11)],
-                [("ins", 0, 1, 2), ("load", 0), ("set", 0, True, 12)]):
+                srcs.append({"pk": 0, "tok": 0, "attrs": {"a": a, "b": b}, "persistent": pers, "modified": False})
+    srcs.append({"pk": 0, "tok": 0, "attrs": {"a": 5, "b": None}, "persistent": True, "modified": True})
+    srcs.append({"pk": 0, "tok": 1, "attrs": {"a": 7, "b": None}, "persistent": True, "modified": False})
+    for pre in ([], [("ins", 0, 1, 2)], [("ins", 0, 1, 2), ("load", 0, 0)], [("ins", 0, 1, 2), ("load", 0, 0), ("set", 0, 0, False, 11)],
+                [("ins", 0, 1, 2), ("load", 0, 1), ("set", 0, 1, True, 12)]):
         for s1, s2 in itertools.product(srcs, repeat=2):
             for l1 in (1, 0):
                 for l2 in (1, 0):
                     if not pre and (l1 == 0 or l2 == 0):
+                        continue
+                    if (l1 == 0 and s1["tok"]) or (l2 == 0 and s2["tok"]):
                         continue
                     yield pre + [("m", l1, s1), ("m", l2, s2), ("flush",), ("m", 1, s1)]
 
@@ -500,14 +659,20 @@ def jsonable(case):
 
 def unjson(c):
     if c.get("src") == "graph":
-        return dict(c, dbp={int(k): v for k, v in c["dbp"].items()}, dbc={int(k): tuple(v) for k, v in c["dbc"].items()})
+        return dict(c, dbp={int(k): v for k, v in c["dbp"].items()}, dbc={int(k): tuple(v) for k, v in c["dbc"].items()},
+                    dbk={int(k): v for k, v in c.get("dbk", {}).items()}, dbpk={int(k): v for k, v in c.get("dbpk", {}).items()})
     return dict(c, ops=[tuple(o) for o in c["ops"]])
 
 
 def check_case(case):
+    """returns (line, problems, executed ops, final flush done)"""
     if case["src"] == "graph":
-        return run_graph(case)
-    return run_flat(case)
+        r = run_graph(case)
+        return r[0], r[1], 0, 1
+    r = run_flat(case)
+    if len(r) == 2:  # crashed
+        return r[0], r[1], len(case["ops"]), 1
+    return r
 
 
 def _budget_exhausted(ctx, t0, n):
@@ -536,7 +701,7 @@ def run(ctx, deep=False):
     for case in gen_cases(ctx, deep):
         if _budget_exhausted(ctx, t0, len(cases)):
             break
-        line, problems = check_case(case)
+        line, problems, nexec, ff = check_case(case)
         jc = jsonable(case)
         ctx.case(jc, nontrivial=(case["src"] == "graph" or "M" in line))
         ctx.count("src=" + case["src"])
@@ -545,14 +710,14 @@ def run(ctx, deep=False):
         if case["src"] != "graph":
             cases.append(jc)
             impl_out.append(line)
-            reqs.append(request(case))
+            reqs.append(request(case, nexec, ff))
         if len(ctx.violations) >= 25:
             break
         if case["src"] == "flat" and len(ctx.samples) < 3:
             ctx.sample({"case": jc, "impl": line})
     if ctx.driver_ok():
         ctx.correspond("corr/c45:session.merge-vs-Model.Merge", cases, impl_out, ctx.driver(reqs))
-        bad = ["merge run 1 m:1:3:N:N:1:0", "merge run 1 m:2:0:N:N:1:0", "merge run x -", "merge run 1 load:0:1"]
+        bad = ["merge run 1 1 m:1:3:0:N:N:1:0", "merge run 1 1 m:2:0:0:N:N:1:0", "merge run x 1 -", "merge run 1 1 load:0", "merge run 1 1 m:1:0:1:N:N:0:0"]
         ctx.correspond("corr/c45:malformed-rejected", [{"req": b} for b in bad], ["bad-op"] * len(bad), ctx.driver(bad))
 
 
@@ -560,7 +725,7 @@ def search(ctx, broken):
     for d in ctx.disagreements:
         c = d.get("case")
         if isinstance(c, dict) and "ops" in c:
-            _, problems = check_case(unjson(c))
+            problems = check_case(unjson(c))[1]
             for key, detail in problems:
                 ctx.violation(key, c, detail)
     if ctx.violations:
@@ -572,6 +737,6 @@ def search(ctx, broken):
 
 def replay(ctx, obj):
     case = unjson(obj["case"])
-    line, problems = check_case(case)
+    line, problems = check_case(case)[:2]
     print("replay C45 %s\n  impl: %s\n  oracle: %s" % (request(case) if case["src"] != "graph" else case, line, problems))
     return bool(problems)
